@@ -139,6 +139,8 @@ func runC14(c *kit.Ctx) {
 		c.Check(e2 == nil && setsClosed, closeFn, "close-releases", closeFn.Pos(), "Close sets closed and calls closeRegionScanner on every path past the closed test", "Close can finish without calling closeRegionScanner (or without setting closed): "+c.BlockPath(e2))
 	}
 
+	moreResultsFirst(c)
+
 	// ---- R2 ---------------------------------------------------------------
 	c.StartRule("R2", "the region-scanner id is cleared only when the server side is released", 3)
 	for _, a := range p.FieldAccesses(idF) {
